@@ -13,6 +13,7 @@ Oracle: forward-mode dual numbers (oracle.ref_grad) on the real compile_jacobian
 from __future__ import annotations
 
 import math
+import zlib
 import warnings
 
 import numpy as np
@@ -145,6 +146,166 @@ def close(a, b, rtol=1e-9, atol=1e-11):
     if math.isinf(a) or math.isinf(b):
         return a == b
     return abs(a - b) <= atol + rtol * max(abs(a), abs(b))
+
+
+# ----------------------------------------------------------------------------- call sequences (history independence)
+#
+# The model's closures are *stateless*: `clo.run x σ` depends only on the point and on the parameter store at call
+# time.  The real callables are Python closures that may keep state between calls (memoised last point, reused
+# buffers, references to the caller's array).  A call sequence drives ONE compiled callable through several requests
+# and demands that every answer equals what a freshly compiled callable returns when asked that point once.
+#   steps:  ("new", xs)    call with a new array holding xs
+#           ("same", xs)   write xs into the shared buffer *in place*, call with that very array object
+#           ("again",)     call with the shared buffer, untouched
+#           ("set", k, v)  set the k-th Parameter of the expressions to v (no call)
+
+
+def compile_kind(kind, es, V):
+    """kind ∈ grad | jac | hess; `es` a list of expressions (grad / hess use es[0])"""
+    import optyx.core.autodiff as AD
+    import optyx.core.compiler as CC
+
+    if kind == "grad":
+        return CC.compile_gradient(es[0], V)
+    if kind == "jac":
+        return AD.compile_jacobian(es, V)
+    return AD.compile_hessian(es[0], V)
+
+
+def same_value(a: float, b: float) -> bool:
+    if math.isnan(a) or math.isnan(b):
+        return math.isnan(a) and math.isnan(b)
+    if math.isinf(a) or math.isinf(b):
+        return a == b
+    return abs(a - b) <= 1e-12 * max(1.0, abs(a), abs(b))
+
+
+def same_array(a, b) -> bool:
+    a = np.asarray(a, dtype=float); b = np.asarray(b, dtype=float)
+    return a.shape == b.shape and all(same_value(float(u), float(v)) for u, v in zip(a.ravel(), b.ravel()))
+
+
+def standard_sequences(rng, p, q, twins=None):
+    """the call-sequence family for two distinct points p, q (and optionally a pair of points that compare equal
+    with == but are different inputs, e.g. +0.0 / -0.0 coordinates)"""
+    seqs = [
+        ("repeat-new-arrays", [("new", p), ("new", p), ("new", p)]),
+        ("repeat-same-object", [("same", p), ("again",), ("again",)]),
+        ("p-q-p", [("new", p), ("new", q), ("new", p)]),
+        ("q-p-p", [("new", q), ("new", p), ("new", p)]),
+        ("in-place", [("same", q), ("same", p), ("again",), ("same", q), ("again",)]),
+        ("in-place-then-new", [("same", p), ("new", p), ("same", q), ("new", p)]),
+    ]
+    if twins is not None:
+        a, b = twins
+        seqs.append(("equal-but-distinct", [("new", a), ("new", b), ("new", a)]))
+        seqs.append(("equal-but-distinct-in-place", [("same", a), ("same", b), ("again",), ("same", a)]))
+    return seqs
+
+
+def light_sequences(p, q, n_params=0):
+    """reduced family for the value checks at regular points (C03 / C17): a stale memo, a kept reference to the
+    caller's array or a frozen parameter would show as a history-dependent answer"""
+    seqs = [
+        ("repeat-same-object", [("same", p), ("again",), ("new", p)]),
+        ("in-place", [("same", q), ("same", p), ("again",), ("same", q)]),
+        ("p-q-p", [("new", p), ("new", q), ("new", p)]),
+    ]
+    if n_params:
+        seqs.append(("parameter-change", [("new", p), ("set", 0, 2.75), ("new", p), ("same", p), ("set", 0, -0.5),
+                                          ("again",), ("new", q)]))
+    return seqs
+
+
+def run_steps(fn, steps, params):
+    """drive one callable; returns [(step_index, xs, param_values, output | 'raise:…')] for every call"""
+    out = []
+    buf = None
+    cur = None
+    for si, st in enumerate(steps):
+        if st[0] == "set":
+            params[st[1]].set(st[2])
+            continue
+        if st[0] == "new":
+            cur = [float(a) for a in st[1]]
+            arg = np.array(cur, dtype=float)
+        elif st[0] == "same":
+            cur = [float(a) for a in st[1]]
+            if buf is None or len(buf) != len(cur):
+                buf = np.array(cur, dtype=float)
+            else:
+                buf[:] = cur
+            arg = buf
+        else:  # again
+            arg = buf if buf is not None else np.array(cur, dtype=float)
+        res = grab(lambda: np.array(fn(arg), dtype=float, copy=True))
+        out.append((si, list(cur), tuple(float(np.asarray(p.value)) for p in params), res))
+    return out
+
+
+def check_sequences(kind, es, V, named_seqs, require_finite=False):
+    """history independence of one compiled callable kind on the real code.
+    returns (failures, n_calls)"""
+    params = all_params(es)
+    saved = [p.value for p in params]
+    refs = {}
+    fails, n_calls = [], 0
+
+    def ref(xs, pv):
+        key = (tuple(num_tok(a) for a in xs), pv)
+        if key not in refs:
+            for p_, v in zip(params, pv):
+                p_.set(v)
+            f0 = grab(lambda: compile_kind(kind, es, V))
+            refs[key] = f0 if isinstance(f0, str) else grab(lambda: np.array(f0(np.array(xs, dtype=float)), dtype=float, copy=True))
+        return refs[key]
+
+    try:
+        for name, steps in named_seqs:
+            for p_, v in zip(params, saved):
+                p_.set(v)
+            fn = grab(lambda: compile_kind(kind, es, V))
+            if isinstance(fn, str):
+                break
+            calls = run_steps(fn, steps, params)
+            now = tuple(float(np.asarray(p_.value)) for p_ in params)
+            for ci, (si, xs, pv, res) in enumerate(calls):
+                n_calls += 1
+                want = ref(xs, pv)
+                for p_, v in zip(params, now):
+                    p_.set(v)
+                bad = None
+                if isinstance(res, str) or isinstance(want, str):
+                    if res is not want and (str(res) != str(want)):
+                        bad = "a repeated request raised / stopped raising"
+                elif require_finite and not np.all(np.isfinite(res)):
+                    bad = "a repeated request returned a non-finite entry at a finite point"
+                elif not same_array(res, want):
+                    bad = "the answer depends on the call history: it differs from a fresh callable asked this point once"
+                if bad:
+                    fails.append({"what": bad, "kind": "call-sequence", "deriv": kind, "path": getattr(fn, "__name__", "?"),
+                                  "sequence_name": name, "sequence": [list(st) for st in steps], "call_index": ci, "step": si,
+                                  "x": xs, "param_values": list(pv),
+                                  "got": res if isinstance(res, str) else np.asarray(res).tolist(),
+                                  "want": want if isinstance(want, str) else np.asarray(want).tolist()})
+                    break
+            if fails:
+                break
+    finally:
+        for p_, v in zip(params, saved):
+            p_.set(v)
+    return fails, n_calls
+
+
+def replay_sequence(f) -> bool:
+    es, V, _ = rebuild(dict(f, x=f.get("x", [])))
+    steps = [tuple(st) for st in f["sequence"]]
+    fails, n = check_sequences(f["deriv"], es, V, [(f.get("sequence_name", "replay"), steps)],
+                               require_finite=bool(f.get("require_finite", False)))
+    print("calls made:", n)
+    for g in fails:
+        print("FAIL:", {k: g[k] for k in ("what", "path", "sequence_name", "call_index", "x", "got", "want")})
+    return not fails
 
 
 # ----------------------------------------------------------------------------- inputs
@@ -310,6 +471,11 @@ def cell_cases(rng):
             vt, V = alt[rng.randrange(len(alt))]
             cases.append((f"{vt}|{wn}", [wf(node)], V, U))
     cases += order_cover_cases(U, "jac")
+    for tag, e in composition_exprs(U):
+        own = sorted({v.name: v for v in gen.expr_vars(e)}.values(), key=lambda v: v.name)
+        cases.append((f"{tag}|own|id", [e], own, U))
+        if zlib.crc32(tag.encode()) % 3 == 0 or "powpow" in tag:
+            cases.append((f"{tag}|super-rev|id", [e], [U.scalars[2]] + list(reversed(own)), U))
     # degenerate shapes: no expressions / no variables (structural + path comparison only)
     cases.append(("edge:m0|own|id", [], [U.x[0], U.x[1]], U))
     cases.append(("edge:n0|own|id", [U.x.sum()], [], U))
@@ -355,6 +521,57 @@ def random_cases(rng, count, depth_hi):
             V = own[1:] if len(own) > 1 else own
         cases.append(("rand|" + ("safe" if i % 2 == 0 else "any"), es, V, U))
     return cases
+
+
+def composition_exprs(U):
+    """scalar compositions in which a derivative rule meets a simplifier: powers of powers (every inner × outer
+    exponent kind), functions of powers, powers of functions, products / quotients of those — over bases that take
+    BOTH signs, so that an algebraic rewrite valid only for positive bases ((a^m)^n → a^(mn), sqrt(a²) → a, …)
+    shows at a regular point"""
+    from optyx.core.expressions import BinaryOp, Constant, UnaryOp
+
+    a, b = U.scalars[0], U.scalars[1]
+    bases = [("A", a), ("A-3", a - 3.0), ("AB", a * b), ("2A+1", 2.0 * a + 1.0), ("A-B", a - b), ("X0", U.x[0] + U.x[1])]
+    out = []
+    for bn, base in bases:
+        for a_in in (2, 3, 4, 2.0, 0.5, -1, -2):
+            for b_out in (0.5, 1.5, -0.5, 2, 3, -1, 2.5, 1.0):
+                out.append((f"comp:powpow:{a_in}:{b_out}:{bn}",
+                            BinaryOp(BinaryOp(base, Constant(a_in), "**"), Constant(b_out), "**")))
+        for op in ("sqrt", "abs", "log", "exp", "neg", "sin", "tanh", "cosh"):
+            out.append((f"comp:unpow:{op}:{bn}", UnaryOp(BinaryOp(base, Constant(2), "**"), op)))
+            out.append((f"comp:powun:{op}:{bn}", BinaryOp(UnaryOp(base, op), Constant(2), "**")))
+            out.append((f"comp:powun3:{op}:{bn}", BinaryOp(UnaryOp(base, op), Constant(3), "**")))
+        sq = BinaryOp(base, Constant(2), "**")
+        out.append((f"comp:mix:powpow*b:{bn}", BinaryOp(sq, Constant(1.5), "**") * b))
+        out.append((f"comp:mix:b/powpow:{bn}", b / (BinaryOp(sq, Constant(0.5), "**") + 1.0)))
+        out.append((f"comp:mix:sqrtsq+abs:{bn}", UnaryOp(sq, "sqrt") + UnaryOp(base, "abs") * a))
+        out.append((f"comp:mix:negneg:{bn}", -(-(base * base * base))))
+        out.append((f"comp:mix:abs-abs:{bn}", UnaryOp(UnaryOp(base, "abs"), "abs") ** 3))
+        out.append((f"comp:mix:pow4root:{bn}", BinaryOp(BinaryOp(base, Constant(4), "**"), Constant(0.25), "**") * base))
+    return out
+
+
+MAGS = [0.3125, 0.5625, 0.8125, 1.1875, 1.4375, 1.9375, 2.5625, 3.3125]
+
+
+def sign_points(rng, n, limit=8):
+    """points in *every sign pattern* of the coordinates (all 2^n for n ≤ 3, otherwise all-positive, all-negative,
+    one-negative-each and random patterns up to `limit`), dyadic magnitudes"""
+    import itertools
+
+    if n == 0:
+        return [[]]
+    if n <= 3:
+        pats = list(itertools.product((1.0, -1.0), repeat=n))
+    else:
+        pats = [tuple([1.0] * n), tuple([-1.0] * n)]
+        for j in range(n):
+            p = [1.0] * n; p[j] = -1.0; pats.append(tuple(p))
+        while len(pats) < limit + n:
+            pats.append(tuple(rng.choice((1.0, -1.0)) for _ in range(n)))
+        pats = pats[:max(limit, 2)]
+    return [[sg * rng.choice(MAGS) for sg in pat] for pat in pats]
 
 
 def rand_x(rng, n, positive):
@@ -576,15 +793,38 @@ def run(ctx) -> core.Report:
                     rep.oracle_failures.append(dict(payload_of(es, V, xs, params), kind="compiled-expression-gradient",
                                                     what="CompiledExpression.gradient differs from compile_gradient",
                                                     got=str(ce)[:200], want=str(g)[:200]))
-        # property oracle on the real code (independent of the Lean model)
-        fails, checked, skipped = check_numeric(es, V, xs)
-        rep.histogram["oracle_entries"] = rep.histogram.get("oracle_entries", 0) + checked
-        if skipped:
-            rep.skipped["irregular-or-ill-conditioned-row"] = rep.skipped.get("irregular-or-ill-conditioned-row", 0) + skipped
-        for f in fails:
-            f.update(payload_of(es, V, xs, params))
-            f["tag"] = tag
-            rep.oracle_failures.append(f)
+        # property oracle on the real code (independent of the Lean model): the point sent to the model, plus points
+        # in every sign pattern for the compositions (one further random pattern for everything else)
+        if tag.startswith("comp:"):
+            more = sign_points(rng, len(V))
+        elif V and covered and "orders" not in tag:
+            more = [[rng.choice((1.0, -1.0)) * rng.choice(MAGS) for _ in V]]
+        else:
+            more = []
+        for pt in [xs] + more:
+            fails, checked, skipped = check_numeric(es, V, pt)
+            rep.histogram["oracle_entries"] = rep.histogram.get("oracle_entries", 0) + checked
+            rep.histogram["oracle_points"] = rep.histogram.get("oracle_points", 0) + 1
+            if skipped:
+                rep.skipped["irregular-or-ill-conditioned-row"] = rep.skipped.get("irregular-or-ill-conditioned-row", 0) + skipped
+            for f in fails:
+                f.update(payload_of(es, V, pt, params))
+                f["tag"] = tag
+                rep.oracle_failures.append(f)
+        # call sequences at regular points (one callable, several requests; answers must not depend on history)
+        if es and V and covered and (thorough or "orders" not in tag or rng.random() < 0.25):
+            q = rand_x(rng, len(V), True)
+            for kind in (("jac", "grad") if single else ("jac",)):
+                sf, n_calls = check_sequences(kind, es, V, light_sequences(xs, q, len(params)))
+                rep.histogram["sequence_calls"] = rep.histogram.get("sequence_calls", 0) + n_calls
+                for f in sf:
+                    # only points regular for every row are witnesses of C03
+                    if all(w is not None for w in oracle_rows(es, V, f["x"])):
+                        f.update(payload_of(es, V, f["x"], params))
+                        f["tag"] = tag
+                        rep.oracle_failures.append(f)
+                    else:
+                        rep.skipped["sequence-at-irregular-point"] = rep.skipped.get("sequence-at-irregular-point", 0) + 1
         if len(rep.samples) < 6 and single and outs[idx + 3] != "none" and len(outs[idx]) < 220:
             rep.samples.append({"tag": tag, "V": [v.name for v in V], "rows": outs[idx], "path": outs[idx + 1]})
     return rep
@@ -594,6 +834,44 @@ def search(ctx, rep):
     """correspondence or proof broken and no failing input among this run's cases: widen the dual-number
     oracle over many more (expression list, V order, point) triples on the real code"""
     rng = core.Rng(ctx["seed"] + 104729)
+
+    def probe(tag, es, V, points):
+        for xs in points:
+            fails, _, _ = check_numeric(es, V, xs)
+            if fails:
+                f = fails[0]
+                try:
+                    f.update(payload_of(es, V, xs, all_params(es)))
+                except Unsupported:
+                    return None
+                f["tag"] = tag
+                return f
+        return None
+
+    # (1) the rule / simplifier interaction family at every sign pattern and several magnitudes: when a generated
+    #     rule template or a proof about it broke, the change is in exactly these operators
+    U = gen.Universe(rng)
+    for tag, e in composition_exprs(U):
+        own = sorted({v.name: v for v in gen.expr_vars(e)}.values(), key=lambda v: v.name)
+        pts = [p for _ in range(3) for p in sign_points(rng, len(own))]
+        f = probe(tag, [e], own, pts)
+        if f:
+            return f
+    # (2) the disagreeing cases of this run, at many sign patterns
+    seen = set()
+    for mm in rep.corr_mismatches[:300]:
+        key = (tuple(mm.get("exprs", [])), tuple(mm.get("V", [])))
+        if "exprs" not in mm or key in seen:
+            continue
+        seen.add(key)
+        try:
+            es, V, _ = rebuild(mm)
+        except Exception:  # noqa: BLE001
+            continue
+        pts = [p for _ in range(4) for p in sign_points(rng, len(V))]
+        f = probe(mm.get("tag", "mismatch"), es, V, pts)
+        if f:
+            return f
     for rnd in range(6):
         pool = cell_cases(rng) + random_cases(rng, 1500, 4)
         for tag, es, V, U in pool:
@@ -625,6 +903,8 @@ def rebuild(f):
 
 def replay(payload) -> bool:
     f = payload["failure"]
+    if f.get("kind") == "call-sequence":
+        return replay_sequence(f)
     es, V, xs = rebuild(f)
     fails, checked, skipped = check_numeric(es, V, xs)
     print("entries checked:", checked, "rows skipped:", skipped)
